@@ -8,6 +8,7 @@
 (*   pairs    (Pairs = TRUE) every pair of non-nominal variants of two fields *)
 (*   trunc    the nominal record of every type cut after every octet of its   *)
 (*            RDATA (never well-formed; safety only)                          *)
+(*   code     every TYPE code 0..300 (and some high ones) with opaque RDATA   *)
 (*   tlv      the item lists of the loop machine TlvLoop for its four         *)
 (*            carriers (options, parameters, strings, windows)                *)
 EXTENDS GrammarOps, TLC, Json
@@ -53,14 +54,22 @@ NoTlv == [carrier |-> "none", items |-> <<>>, stray |-> 0]
 \* every proper prefix of the nominal RDATA of every type (the driver unfolds the prefixes; RDLENGTH = prefix length)
 Trunc == {[kind |-> "trunc", t |-> t, pick |-> Nominal(t), ctx |-> Home(Types[t].code)] : t \in TIx}
 
+\* every TYPE code of the assigned range and a few beyond, with an opaque 9-octet RDATA (and with none):
+\* whatever a code means to the decoder, it must not take it down
+CodeSweep == {[kind |-> "code", code |-> k, n |-> n] :
+                 k \in (0..300) \cup {32768, 32769, 32770, 65279, 65280, 65281, 65534, 65535}, n \in {0, 1, 9}}
+
 Cases == Single \cup Context \cup PairSet \cup Trunc
 
-Init == c \in Cases \cup {x \in Tlv : x.stray < CarrierHdr(x.carrier)}
+Init == c \in Cases \cup {x \in Tlv : x.stray < CarrierHdr(x.carrier)} \cup CodeSweep
 Next == UNCHANGED c
 Spec == Init /\ [][Next]_vars
 
 Case ==
-    IF c.kind = "tlv"
+    IF c.kind = "code"
+    THEN [kind |-> "code", type |-> "TYPE" \o ToString(c.code), code |-> c.code, tags |-> <<"opaque">>, ctx |-> NomCtx,
+          prims |-> IF c.n = 0 THEN <<>> ELSE <<B(c.n, 7)>>, must |-> FALSE, bytePreserved |-> FALSE, tlv |-> NoTlv]
+    ELSE IF c.kind = "tlv"
     THEN [kind |-> "tlv", type |-> Types[TypeIx(CarrierCode(c.carrier))].name, code |-> CarrierCode(c.carrier), tags |-> <<"tlv">>,
           ctx |-> c.ctx, prims |-> TlvPrims(c.carrier, c.items, c.stray), must |-> TlvMust(c.carrier, c.items, c.stray, c.ctx),
           bytePreserved |-> BytePreserved(CarrierCode(c.carrier)),
